@@ -330,11 +330,14 @@ Section Build.
     assert (Ea : auth_ids e2 = auth_ids e1).
     { unfold auth_ids, is_create. rewrite A1, A3, A4, A10. reflexivity. }
     assert (Ep : prev_ids e2 = prev_ids e1) by (unfold prev_ids; rewrite A9; reflexivity).
-    unfold check_fields in *. rewrite Ea, Ep, A2, A3, A4.
-    change (e_ver e2) with (e_ver e1).
+    assert (Ec : is_create e2 = is_create e1) by (unfold is_create; rewrite A3, A4; reflexivity).
+    unfold check_fields in *. rewrite Ea, Ep, A1, A2, A3, A4, Ec.
+    change (e_ver e2) with (e_ver e1). change (e_class e2) with (e_class e1).
+    change (f_room (mkEv ver c (JObj m) red' id')) with (f_room e1).
     change (f_sender (mkEv ver c (JObj m) red' id')) with (f_sender e1).
     change (f_type (mkEv ver c (JObj m) red' id')) with (f_type e1).
     change (f_skey (mkEv ver c (JObj m) red' id')) with (f_skey e1).
+    apply andb_true_iff in Hcf as [Hcf C7].
     apply andb_true_iff in Hcf as [Hcf C6]. apply andb_true_iff in Hcf as [Hcf C5].
     apply andb_true_iff in Hcf as [Hcf C4]. apply andb_true_iff in Hcf as [Hcf C3].
     apply andb_true_iff in Hcf as [C1 C2].
@@ -343,6 +346,7 @@ Section Build.
       change (e_json e2) with (jdel k_unsigned (JObj m)). change (e_json e1) with (JObj m) in C3.
       pose proof (jdel_shorter k_unsigned m) as Hs.
       eapply N.le_trans; [|exact C3]. lia. }
+    apply andb_true_iff; split; [|exact C7].
     apply andb_true_iff; split; [|exact C6]. apply andb_true_iff; split; [|exact C5].
     apply andb_true_iff; split; [|exact C4]. apply andb_true_iff; split; [|exact L].
     apply andb_true_iff; split; [exact C1|exact C2].
